@@ -211,6 +211,10 @@ func runVerify(o *runOpts) int {
 			jobs = append(jobs, &solveJob{ob.vc, ob})
 		}
 	}
+	noRetry = map[string]bool{}
+	for _, k := range loadKnown(o.known) {
+		noRetry[k.Obligation] = true // an open known finding is expected to fail: no second attempt
+	}
 	solveAll(jobs, dir, o.timeout, o.tier == "thorough", o.par)
 	wall := time.Since(t0).Seconds()
 	return report(o, P, results, undecided, tLoad, tGen, wall)
